@@ -43,10 +43,16 @@ def check(ctx):
         _sinks(ctx)
     with ctx.section("recursion"):
         _recursion(ctx)
+    with ctx.section("buffer"):
+        _buffer(ctx)
+    with ctx.section("attribute-writer"):
+        _attr_writer(ctx)
     with ctx.section("escapers-structure"):
         _escaper_structure(ctx)
     with ctx.section("escapers-content"):
         _escaper_content(ctx)
+    with ctx.section("escapers-attribute"):
+        _escaper_attribute(ctx)
     with ctx.section("escapers-cdata"):
         _escaper_cdata(ctx)
     with ctx.section("escapers-comment"):
@@ -184,13 +190,53 @@ def _recursion(ctx):
     starts = [c for c in walk_local(ft) if isinstance(c, ast.Call) and call_name(c) == "_flattenElement"]
     ok = len(starts) == 1 and len(starts[0].args) == 6 and src(starts[0].args[5]) == "escapeForContent" and src(starts[0].args[1]) == param_names(ft)[1] and src(starts[0].args[2]) == "bufferedWrite"
     ctx.check(ok, "recursion/top-level-escaper", Q + "_flattenTree", "flattening does not start in the content-escaping context")
+
+
+def _buffer(ctx):
+    """everything written reaches the upstream writer exactly once and in the order written"""
+    ft = ctx.func(FL, "_flattenTree")
+    up = param_names(ft)[2]
     bw = ctx.func(FL, "_flattenTree.bufferedWrite")
-    app = [c for c in walk_local(bw) if isinstance(c, ast.Call) and call_attr(c) == "append"]
-    ok = len(app) == 1 and [src(a) for a in app[0].args] == param_names(bw)[:1]
     fb = ctx.func(FL, "_flattenTree.flushBuffer")
-    wr = [c for c in walk_local(fb) if isinstance(c, ast.Call) and call_name(c) == "write"]
-    ok = ok and len(wr) == 1 and src(wr[0].args[0]) == f"b''.join({src(app[0].func.value)})"
-    ctx.check(ok, "recursion/buffer-order", Q + "_flattenTree", "buffered output is not appended and flushed joined in order")
+    q = Q + "_flattenTree."
+    g = ctx.cfg(bw)
+    bs = param_names(bw)[0]
+    app = call_sites(g, lambda c: call_attr(c) == "append" and [src(a) for a in c.args] == [bs])
+    direct = call_sites(g, lambda c: isinstance(c.func, ast.Name) and c.func.id == up)
+    flushes = [n for n, c in call_sites(g, lambda c: isinstance(c.func, ast.Name) and c.func.id == fb.name)]
+    ctx.check(len(app) >= 1, "recursion/buffer-order", q + "bufferedWrite", "output is not appended to the buffer")
+    for n, c in direct:
+        w = g.must_precede(flushes, [n])
+        ctx.check(w is None and [src(a) for a in c.args] == [bs], "recursion/buffer-order", ctx.construct(q + "bufferedWrite", c),
+                  "a chunk is handed to the upstream writer while earlier output is still sitting in the buffer: it overtakes the markup that should enclose it "
+                  "(tags.p(big) is written as BIG<p></p>)", witness=g.describe(w))
+    w = g.must_pass([g.entry], [n for n, c in app] + [n for n, c in direct], exc=False)
+    ctx.check(w is None, "recursion/buffer-order", q + "bufferedWrite | every chunk kept", "a chunk can be dropped (neither buffered nor written)", witness=g.describe(w))
+    for n, c in app:
+        ctx.check(g.path([n], [m for m, _ in direct], strict=True) is None and g.path([m for m, _ in direct], [n], strict=True) is None, "recursion/buffer-order",
+                  ctx.construct(q + "bufferedWrite", c) + " | once", "a chunk is both buffered and written directly (duplicated output)")
+    bufname = src(app[0][1].func.value) if app else "buf"
+    g2 = ctx.cfg(fb)
+    wr = call_sites(g2, lambda c: isinstance(c.func, ast.Name) and c.func.id == up)
+    ok = len(wr) == 1 and src(wr[0][1].args[0]) == f"b''.join({bufname})"
+    ctx.check(ok, "recursion/buffer-order", q + "flushBuffer", "the buffer is not delivered joined in order by exactly one upstream write")
+    clears = g2.ids(lambda x: x.kind == "stmt" and ((isinstance(x.ast, ast.Delete) and src(x.ast.targets[0]) == f"{bufname}[:]") or
+                                                 (isinstance(x.ast, ast.Expr) and isinstance(x.ast.value, ast.Call) and call_name(x.ast.value) == f"{bufname}.clear")))
+    for n, c in wr:
+        w = g2.must_pass([n], clears, exc=False)
+        ctx.check(bool(clears) and w is None, "recursion/buffer-order", ctx.construct(q + "flushBuffer", c) + " | then emptied", "delivered output stays in the buffer and is delivered again",
+                  witness=g2.describe(w))
+    g3 = ctx.cfg(ft)
+    fl = [n for n, c in call_sites(g3, lambda c: isinstance(c.func, ast.Name) and c.func.id == fb.name)]
+    w = g3.must_pass([g3.entry], fl, exc=False)
+    loops = g3.ids(lambda x: x.kind == "join" and isinstance(x.ast, ast.While))
+    final = [n for n in fl if g3.path([n], loops, strict=True) is None]
+    ctx.check(w is None and bool(final), "recursion/buffer-order", q[:-1] + " | final flush", "flattening can finish with output still in the buffer", witness=g3.describe(w))
+    others = [c for c in walk_local(ft) if isinstance(c, ast.Call) and isinstance(c.func, ast.Name) and c.func.id == up]
+    ctx.check(not others, "recursion/buffer-order", q[:-1] + " | no direct writes", "_flattenTree writes to the upstream writer around the buffer")
+
+
+def _attr_writer(ctx):
     ww = ctx.func(FL, "writeWithAttributeEscaping")
     rets = [s for s in walk_local(ww) if isinstance(s, ast.Return)]
     inner = ctx.func(FL, "writeWithAttributeEscaping._write")
@@ -214,28 +260,37 @@ def _strings(alphabet, maxlen):
 
 
 def _escaper_structure(ctx):
+    """Order / coverage rules on the `.replace()` idiom.  They apply only while the escapers are written as replace chains; any other idiom
+    (translate tables, loops, regex) is judged by the finite-domain round-trip rules alone."""
     f = ctx.func(FL, "escapeForContent")
     q = Q + "escapeForContent"
-    pairs = replace_chain(f)
-    probs = escaper_problems(pairs, escape_unit=b"&")
-    ctx.check(not probs, "escaper/rewrite-order", q, "; ".join(probs))
-    olds = [o for o, n in pairs]
-    for ch in (b"&", b"<", b">"):
-        ctx.check(ch in olds, "escaper/metacharacters", q + f" | {ch.decode()}", f"{ch!r} is not rewritten in element content")
+    try:
+        pairs = replace_chain(f)
+    except AnalysisError:
+        pairs = []
+    if pairs:
+        probs = escaper_problems(pairs, escape_unit=b"&")
+        ctx.check(not probs, "escaper/rewrite-order", q, "; ".join(probs))
+        olds = [o for o, n in pairs]
+        for ch in (b"&", b"<", b">"):
+            ctx.check(ch in olds, "escaper/metacharacters", q + f" | {ch.decode()}", f"{ch!r} is not rewritten in element content")
+    else:
+        ctx.note("escapeForContent is not a replace chain: judged by escaper/content-roundtrip only")
     f = ctx.func(FL, "writeWithAttributeEscaping._write")
     q = Q + "writeWithAttributeEscaping._write"
     wr = [c for c in walk_local(f) if isinstance(c, ast.Call) and call_name(c) == "write"]
-    ctx.need(len(wr) == 1 and len(wr[0].args) == 1, "write(...) in _write")
-    e = wr[0].args[0]
+    e = wr[0].args[0] if len(wr) == 1 and len(wr[0].args) == 1 else None
     chain = []
-    while isinstance(e, ast.Call) and call_attr(e) == "replace":
+    while isinstance(e, ast.Call) and call_attr(e) == "replace" and len(e.args) >= 2:
         chain.insert(0, (_const(e.args[0]), _const(e.args[1])))
         e = e.func.value
-    ok = isinstance(e, ast.Call) and call_name(e) == "escapeForContent" and [src(a) for a in e.args] == param_names(f)[:1]
-    ctx.check(ok, "escaper/attribute-chain", q, "attribute output is not escapeForContent(data) followed by the quote replacement")
-    ctx.check((b'"', b"&quot;") in chain, "escaper/metacharacters", q + ' | "', "the double quote is not rewritten inside attribute values")
-    for o, n in chain:
-        ctx.check(o not in (b"&",) and b'"' not in (n or b""), "escaper/rewrite-order", q + f" | {o!r}", "a replacement applied after escapeForContent re-introduces or re-escapes a metacharacter")
+    if chain and isinstance(e, ast.Call) and call_name(e) == "escapeForContent":
+        ctx.check([src(a) for a in e.args] == param_names(f)[:1], "escaper/attribute-chain", q, "attribute output is not escapeForContent(data) followed by the quote replacement")
+        ctx.check((b'"', b"&quot;") in chain, "escaper/metacharacters", q + ' | "', "the double quote is not rewritten inside attribute values")
+        for o, n in chain:
+            ctx.check(o not in (b"&",) and b'"' not in (n or b""), "escaper/rewrite-order", q + f" | {o!r}", "a replacement applied after escapeForContent re-introduces or re-escapes a metacharacter")
+    else:
+        ctx.note("writeWithAttributeEscaping._write is not `write(escapeForContent(data).replace(...))`: judged by escaper/attribute-roundtrip only")
 
 
 def _unescape(b):
@@ -265,22 +320,26 @@ def _escaper_content(ctx):
         raise AnalysisError(f"C28: escapeForContent not interpretable: {e}")
     ctx.check(not bad, "escaper/content-roundtrip", q, f"escapeForContent({bad[0][0]!r}) = {bad[0][1]!r}: raw markup survives or the text does not un-escape to itself ({len(bad)} of {n})" if bad else "",
               detail=f"{n} strings")
+
+
+def _escaper_attribute(ctx):
+    efc = ctx.func(FL, "escapeForContent")
     w = ctx.func(FL, "writeWithAttributeEscaping._write")
     q = Q + "writeWithAttributeEscaping._write"
-    wr = [c for c in walk_local(w) if isinstance(c, ast.Call) and call_name(c) == "write"]
-    ctx.need(len(wr) == 1, "write(...) in _write")
     bad = []
     n = 0
-    fake = ast.FunctionDef(name="_write", args=w.args, body=[ast.Return(value=wr[0].args[0])], decorator_list=[])
     try:
         for s in _strings(["&", "<", ">", '"', "a", ";", "q"], 4):
             n += 1
-            out = _run(fake, s.encode(), {"escapeForContent": lambda d: _run(efc, d)})
-            okay = isinstance(out, bytes) and not (set(out) & set(b'<>"')) and _unescape(out) == s.encode()
+            captured = []
+            funcs = {"isinstance": isinstance, "write": lambda d: captured.append(d), "escapeForContent": lambda d: _run(efc, d)}
+            kind, val = interpret(w, {param_names(w)[0]: s.encode(), "str": str, "bytes": bytes}, funcs=funcs)
+            out = b"".join(captured) if all(isinstance(c, bytes) for c in captured) else None
+            okay = kind == "return" and isinstance(out, bytes) and not (set(out) & set(b'<>"')) and _unescape(out) == s.encode()
             if not okay:
                 bad.append((s, out))
     except InterpError as e:
-        raise AnalysisError(f"C28: attribute escaper not interpretable: {e}")
+        raise AnalysisError(f"C28: attribute escaper uses a construct the evaluator cannot interpret: {e}")
     ctx.check(not bad, "escaper/attribute-roundtrip", q, f"attribute text {bad[0][0]!r} is written as {bad[0][1]!r}: a quote/angle bracket survives or the value does not un-escape to itself ({len(bad)} of {n})" if bad else "",
               detail=f"{n} strings")
     a = ctx.func(FL, "attributeEscapingDoneOutside")
@@ -441,6 +500,8 @@ def _escaper_comment(ctx):
 
 
 MUTANTS = [
+    Mutant("large-chunk-bypasses-buffer", FL, "        nonlocal bufSize\n        buf.append(bs)\n        bufSize += len(bs)\n", "        nonlocal bufSize\n        if len(bs) > BUFFER_SIZE:\n            write(bs)\n            return\n        buf.append(bs)\n        bufSize += len(bs)\n"),
+    Mutant("flush-keeps-buffer", FL, "            write(b\"\".join(buf))\n            del buf[:]\n", "            write(b\"\".join(buf))\n"),
     Mutant("content-drops-gt", FL, "    data = data.replace(b\"&\", b\"&amp;\").replace(b\"<\", b\"&lt;\").replace(b\">\", b\"&gt;\")", "    data = data.replace(b\"&\", b\"&amp;\").replace(b\"<\", b\"&lt;\")"),
     Mutant("content-amp-last", FL, "    data = data.replace(b\"&\", b\"&amp;\").replace(b\"<\", b\"&lt;\").replace(b\">\", b\"&gt;\")", "    data = data.replace(b\"<\", b\"&lt;\").replace(b\">\", b\"&gt;\").replace(b\"&\", b\"&amp;\")"),
     Mutant("attribute-quote-not-escaped", FL, "        write(escapeForContent(data).replace(b'\"', b\"&quot;\"))", "        write(escapeForContent(data))"),
@@ -459,6 +520,10 @@ MUTANTS = [
     Mutant("comment-close-before-data", FL, "        write(b\"<!--\")\n        write(escapedComment(root.data))\n        write(b\"-->\")", "        write(b\"<!--\")\n        write(b\"-->\")\n        write(escapedComment(root.data))"),
 ]
 SILENT = [
+    Silent("large-chunk-flushes-first", FL, "        nonlocal bufSize\n        buf.append(bs)\n        bufSize += len(bs)\n", "        nonlocal bufSize\n        if len(bs) > BUFFER_SIZE:\n            flushBuffer()\n            write(bs)\n            return\n        buf.append(bs)\n        bufSize += len(bs)\n"),
+    Silent("content-translate-loop", FL, "    data = data.replace(b\"&\", b\"&amp;\").replace(b\"<\", b\"&lt;\").replace(b\">\", b\"&gt;\")",
+           "    for old, new in ((b\"&\", b\"&amp;\"), (b\"<\", b\"&lt;\"), (b\">\", b\"&gt;\")):\n        data = data.replace(old, new)"),
+    Silent("attribute-write-in-steps", FL, "        write(escapeForContent(data).replace(b'\"', b\"&quot;\"))", "        escaped = escapeForContent(data)\n        escaped = escaped.replace(b'\"', b\"&quot;\")\n        write(escaped)"),
     Silent("content-separate-statements", FL, "    data = data.replace(b\"&\", b\"&amp;\").replace(b\"<\", b\"&lt;\").replace(b\">\", b\"&gt;\")",
            "    data = data.replace(b\"&\", b\"&amp;\")\n    data = data.replace(b\">\", b\"&gt;\")\n    data = data.replace(b\"<\", b\"&lt;\")"),
     Silent("attribute-escapes-apostrophe-too", FL, "        write(escapeForContent(data).replace(b'\"', b\"&quot;\"))", "        write(escapeForContent(data).replace(b'\"', b\"&quot;\").replace(b\"\\t\", b\"&#9;\"))"),
